@@ -232,7 +232,11 @@ func callText(c []arg) string {
 
 // runCall installs the list and loads + runs `f(...)`.
 func runCall(l []pdef, call []arg) (loadErr error, runErr *errchain.PlError, got []string, crash *impl.Crash) {
-	params := mkParams(l)
+	return runCallParams(mkParams(l), call)
+}
+
+// runCallParams does the same with a parameter slice the caller made (it may share its array with other slices).
+func runCallParams(params []*runtimev2.Param, call []arg) (loadErr error, runErr *errchain.PlError, got []string, crash *impl.Crash) {
 	var rec []string
 	fn := &runtimev2.Fn{
 		CallCheck: func(ctx *runtimev2.Task, e *ast.CallExpr) *errchain.PlError {
@@ -914,6 +918,69 @@ func TestLiteralArgumentsEachEvaluation(t *testing.T) {
 		}
 	}
 	evid.Exhaustive("collection-literal argument x loop form: every evaluation binds a new collection", n)
+}
+
+// TestSharedDeclarations: the parameter list a call is bound against is the slice the function was registered with:
+// its length and its elements at the time of the load - also when several functions are declared as prefixes of one
+// array of parameters, in whichever order they are loaded, and when a list is edited between two loads.
+func TestSharedDeclarations(t *testing.T) {
+	full := []pdef{{req, "a"}, {req, "b"}, {opt, "c"}, {opt, "d"}}
+	calls := [][]arg{
+		{{Val: 1}, {Val: 2}}, {{Val: 1}, {Name: "b", Val: 2}}, {{Name: "a", Val: 1}, {Name: "b", Val: 2}}, {{Name: "b", Val: 2}, {Name: "a", Val: 1}},
+		{{Val: 1}, {Val: 2}, {Name: "c", Val: 3}}, {{Val: 1}, {Val: 2}, {Name: "d", Val: 4}}, {{Val: 1}, {Name: "b", Val: 2}, {Name: "d", Val: 4}, {Name: "c", Val: 3}},
+		{{Val: 1}, {Val: 2}, {Val: 3}}, {{Val: 1}, {Val: 2}, {Val: 3}, {Val: 4}}, {{Val: 1}, {Name: "c", Val: 3}}, {{Name: "a", Val: 1}, {Name: "b", Val: 2}, {Name: "c", Val: 3}, {Name: "d", Val: 4}},
+	}
+	n := 0
+	check := func(slot string, l []pdef, params []*runtimev2.Param, call []arg, note string) {
+		want, ok := refBind(l, call)
+		rp := replay{Sig: sigText(l) + " " + note, Call: callText(call), Src: callText(call)}
+		lerr, rerr, got, crash := runCallParams(params, call)
+		switch {
+		case crash != nil:
+			rk.Fail(t, slot, rp, "binding %s to %s panicked: %s", rp.Call, rp.Sig, crash.Value)
+		case !ok && lerr == nil:
+			rk.Fail(t, slot, rp, "call %s cannot be bound to %s but was accepted at load (received %v)", rp.Call, rp.Sig, got)
+		case ok && (lerr != nil || rerr != nil):
+			rk.Fail(t, slot, rp, "call %s binds to %s (%v) but was refused: %v %v", rp.Call, rp.Sig, want, lerr, rerr)
+		case ok && strings.Join(got, " | ") != strings.Join(want, " | "):
+			rk.Fail(t, slot, rp, "call %s against %s: parameters received [%s], want [%s]", rp.Call, rp.Sig, strings.Join(got, " | "), strings.Join(want, " | "))
+		}
+		evid.Case(slot+"/"+rp.Sig+" <- "+rp.Call, true, "shared-declarations")
+		n++
+	}
+	for _, order := range [][]int{{2, 3, 4}, {4, 3, 2}, {3, 2, 4, 2}, {2, 4, 2, 3}} {
+		all := mkParams(full) // one array; every function of this round is a prefix of it
+		for _, k := range order {
+			for _, c := range calls {
+				check("prefixes", full[:k], all[:k:k], c, fmt.Sprintf("(first %d of one shared array of %d, load order %v)", k, len(full), order))
+				check("prefixes", full[:k], all[:k], c, fmt.Sprintf("(first %d of one shared array of %d, spare capacity, load order %v)", k, len(full), order))
+			}
+		}
+	}
+	// a list edited between two loads: a slot replaced, a name changed
+	for round := 0; round < 3; round++ {
+		l := []pdef{{req, "a"}, {req, "b"}, {opt, "c"}}
+		params := mkParams(l)
+		for _, c := range calls {
+			check("edited", l, params, c, "(before the edit)")
+		}
+		switch round {
+		case 0:
+			l[1].Name = "z"
+			params[1] = &runtimev2.Param{Name: "z"}
+		case 1:
+			l[1].Name = "z"
+			params[1].Name = "z"
+		default:
+			l[0], l[1] = l[1], l[0]
+			params[0], params[1] = params[1], params[0]
+		}
+		edited := append(append([][]arg{}, calls...), []arg{{Val: 1}, {Name: "z", Val: 2}}, []arg{{Name: "z", Val: 2}, {Name: "a", Val: 1}}, []arg{{Name: "b", Val: 2}, {Name: "a", Val: 1}, {Name: "c", Val: 0}})
+		for _, c := range edited {
+			check("edited", l, params, c, fmt.Sprintf("(after edit %d of the same slice)", round))
+		}
+	}
+	evid.Exhaustive("prefix length x load order x call; list edited in place x call", n)
 }
 
 func TestManyParameters(t *testing.T) {
